@@ -8,6 +8,19 @@ PY = '/venv/bin/python'
 
 # property id -> (technique, level text, level note, design ref)
 CHECKS = {
+    'C01': ('hypothesis generated messages; differential oracle = independent spec codec (vlib/specpdu), both directions',
+            'Generated-input search over every registered message class, diagnostic sub-class and exception response with '
+            'boundary-biased fields, compared byte-for-byte (encode) and field-for-field (decode) with a codec written '
+            'independently from the specification tables and self-checked against the spec worked examples; exhaustive '
+            'sweeps of bit-list lengths, register-list lengths, exception fc x code, diagnostic sub-functions.',
+            'Trusts vlib/specpdu.py as the specification; two recorded known findings are matched on their exact defective bytes.',
+            'DESIGN.md 4 C01'),
+    'C02': ('hypothesis generated messages + operation histories on one object; round-trip / idempotence / no-accumulation oracle',
+            'Generated messages of every class plus generated histories of encode/decode calls on one object, judged by '
+            'pymodbus-against-itself relations: decode(encode(m)) == m with the same class, encode idempotent and pure, '
+            'encode(decode(encode(m))) fixed point, and object state after each decode equal to the last decoded message.',
+            'No external reference (deliberately independent of C01); equality is on public wire fields, bits up to byte padding.',
+            'DESIGN.md 4 C02'),
     'C19': ('hypothesis generated typed-value sequences; oracle = round trip + independent layout function',
             'Generated-input search: thousands of typed value sequences x all four byte/word orders x both transports, '
             'each compared with an exact round trip and an independently written register-image function; plus a '
